@@ -896,7 +896,7 @@ const REF_SIZES: [u64; 12] = [0, 1, 100, 2500, 2500, 14000, 25599, 25600, 25601,
 fn decorate(r: &mut Rng, cfg: &mut Cfg, utxos: &mut Vec<U>, pre: &mut Vec<Op>, full: bool) {
     if full && r.chance(1, 6) {
         let n = if r.chance(1, 3) { 2 } else { 1 };
-        let base = 200 + r.below(6);
+        let base = 210 + r.below(6);
         for j in 0..n { let id = base + j * (1 + r.below(2)) * 7; utxos.push(U { id, kind: 1, mem: 0, steps: 0, refsize: 0, val: Val::ada(r.range(2_000_000, 9_000_000)) }); pre.push(Op::In(id)); }
     }
     if full && r.chance(1, 6) {
@@ -920,10 +920,16 @@ fn decorate(r: &mut Rng, cfg: &mut Cfg, utxos: &mut Vec<U>, pre: &mut Vec<Op>, f
         cfg.prices = if r.chance(1, 10) { None } else { Some(*r.pick(&[MAINNET_PRICES, MAINNET_PRICES, [1, 1, 1, 1000], [0, 1, 0, 1]])) };
         if !r.chance(1, 12) {
             let cid = 800 + r.below(12);
-            let ckind = if r.chance(1, 8) { 1 } else { 0 };
+            let ckind = if r.chance(1, 3) { 1 } else { 0 };
             utxos.push(U { id: cid, kind: ckind, mem: 0, steps: 0, refsize: 0, val: Val::ada(5_000_000) });
             pre.push(Op::X("coll".into(), cid));
         }
+    } else if full && r.chance(1, 8) {
+        // collateral without Plutus inputs: the body still carries it and its owner has to sign
+        let cid = 800 + r.below(12);
+        let ckind = if r.chance(1, 3) { 1 } else { 0 };
+        utxos.push(U { id: cid, kind: ckind, mem: 0, steps: 0, refsize: 0, val: Val::ada(5_000_000) });
+        pre.push(Op::X("coll".into(), cid));
     }
     if r.chance(1, 6) { for _ in 0..r.range(1, 2) { pre.push(Op::X("sig".into(), r.below(POOL))); } }
     if full && r.chance(1, 8) {
